@@ -164,6 +164,30 @@ namespace C13
       }
     }
 
+    // every synchronisation route of Global::Vector against the others and against an independent statement (seeded C13k:
+    // the sync_1_async wrapper forwarded to sync_0_async): (1) sync_1 and sync_1_async().wait() leave a consistent (type-1)
+    // vector unchanged; (2) on a vector that is inconsistent on the interfaces (local copy scaled by 1 + rank/4) the four routes
+    // sync_1 | sync_1_async | from_1_to_0 + sync_0 | from_1_to_0 + sync_0_async agree entry by entry; (3) dot_async / norm2sqr_async
+    // / norm2_async equal their blocking counterparts
+    double sync_route_err = 0.0, sync_scalar_err = 0.0;
+    {
+      auto maxdiff = [](const GlobalSystemVector& x, const GlobalSystemVector& y) { double m = 0.0; const auto* px = x.local().elements(); const auto* py = y.local().elements();
+        for(Index i = 0; i < x.local().size(); ++i) { const double dd = std::fabs(double(px[i]) - double(py[i])); if(!(dd <= m)) m = dd; } return m; };
+      const bool has_nb = !lvl.gate_sys.get_ranks().empty();   // a gate without neighbours hands out finished (empty) tickets: wait() on those asserts
+      double e = 0.0;
+      { GlobalSystemVector a = vec_int.clone(LAFEM::CloneMode::Deep), b = vec_int.clone(LAFEM::CloneMode::Deep);
+        a.sync_1(); { auto tk = b.sync_1_async(); if(has_nb) tk.wait(); }
+        e = std::max(e, std::max(maxdiff(a, vec_int), maxdiff(b, vec_int))); }
+      { GlobalSystemVector a = vec_int.clone(LAFEM::CloneMode::Deep); a.local().scale(a.local(), 1.0 + 0.25 * double(comm.rank()));
+        GlobalSystemVector b = a.clone(LAFEM::CloneMode::Deep), c2 = a.clone(LAFEM::CloneMode::Deep), d2 = a.clone(LAFEM::CloneMode::Deep);
+        a.sync_1(); { auto tk = b.sync_1_async(); if(has_nb) tk.wait(); }
+        c2.from_1_to_0(); c2.sync_0(); d2.from_1_to_0(); { auto tk = d2.sync_0_async(); if(has_nb) tk.wait(); }
+        e = std::max(e, std::max(maxdiff(b, a), std::max(maxdiff(c2, a), maxdiff(d2, a)))); }
+      comm.allreduce(&e, &sync_route_err, std::size_t(1), Dist::op_max);
+      const double d_b = vec_int.dot(vec_tmp), d_a = vec_int.dot_async(vec_tmp).wait(), n_b = vec_int.norm2(), n_a = vec_int.norm2_async().wait(), q_a = vec_int.norm2sqr_async().wait();
+      sync_scalar_err = std::max(std::fabs(d_b - d_a) / std::max(std::fabs(d_b), 1e-300), std::max(std::fabs(n_b - n_a), std::fabs(std::sqrt(q_a) - n_b)) / std::max(n_b, 1e-300));
+    }
+
     lvl.filter_sys.filter_sol(vec_sol); lvl.filter_sys.filter_rhs(vec_rhs);
     const double rhs_norm = vec_rhs.norm2();
     String sname = args.check("solver") > 0 ? args.query("solver")->second.front() : String("jacobi");
@@ -195,9 +219,9 @@ namespace C13
     {
       std::printf("C13JSON {\"ranks\":%d,\"element\":\"%s\",\"num_dofs\":%llu,\"levels_physical\":%llu,\"levels_virtual\":%llu,\"status\":\"%s\",\"iters\":%d,"
         "\"rhs_norm_unfiltered\":%.17g,\"int_norm\":%.17g,\"dot_int_rhs\":%.17g,\"aint_norm\":%.17g,\"energy\":%.17g,\"maxabs\":%.17g,\"aint_max\":%.17g,\"at_diff\":%.17g,\"at4_diff\":%.17g,\"a4_diff\":%.17g,\"t0_norm\":%.17g,\"rhs_norm\":%.17g,"
-        "\"join_norm\":%.17g,\"join_norm2\":%.17g,\"int_norm_after_join\":%.17g,\"aint_norm_after_join\":%.17g,\"split_err\":%.17g,\"blk_t1_err\":%.17g,\"t1_max\":%.17g,\"blkv_sync_err\":%.17g,\"blkv_max\":%.17g,\"blkv_dot\":%.17g,\"blkv_dot_ref\":%.17g,\"blkv_norm\":%.17g,\"blkv_maxabs\":%.17g,\"blkv_maxabs_ref\":%.17g,\"p0_dofs\":%llu,\"p0_dot\":%.17g,\"p0_norm\":%.17g,\"p0_norm_async\":%.17g,\"p0_max\":%.17g,\"def_init\":%.17g,\"def_final\":%.17g,\"true_res\":%.17g,\"sol_norm\":%.17g,\"h0_err\":%.17g,\"h1_err\":%.17g}\n",
+        "\"join_norm\":%.17g,\"join_norm2\":%.17g,\"int_norm_after_join\":%.17g,\"aint_norm_after_join\":%.17g,\"split_err\":%.17g,\"blk_t1_err\":%.17g,\"t1_max\":%.17g,\"blkv_sync_err\":%.17g,\"blkv_max\":%.17g,\"blkv_dot\":%.17g,\"blkv_dot_ref\":%.17g,\"blkv_norm\":%.17g,\"blkv_maxabs\":%.17g,\"blkv_maxabs_ref\":%.17g,\"p0_dofs\":%llu,\"p0_dot\":%.17g,\"p0_norm\":%.17g,\"p0_norm_async\":%.17g,\"p0_max\":%.17g,\"def_init\":%.17g,\"def_final\":%.17g,\"true_res\":%.17g,\"sol_norm\":%.17g,\"h0_err\":%.17g,\"h1_err\":%.17g,\"sync_route_err\":%.17g,\"sync_scalar_err\":%.17g}\n",
         comm.size(), ename, (unsigned long long)num_dofs, (unsigned long long)domain.size_physical(), (unsigned long long)domain.size_virtual(), stringify(result).c_str(), iters,
-        rhs_norm_unfiltered, int_norm, dot_int_rhs, aint_norm, energy, maxabs, aint_max, at_diff, at4_diff, a4_diff, t0_norm, rhs_norm, join_norm, join_norm2, int_norm_after_join, aint_norm_after_join, split_err, blk_t1_err, t1_max, blkv_sync_err, blkv_max, blkv_dot, blkv_dot_ref, blkv_norm, blkv_maxabs, blkv_maxabs_ref, (unsigned long long)p0_dofs, p0_dot, p0_norm, p0_norm_async, p0_max, def_init, def_final, true_res, sol_norm, std::sqrt((double)errors.norm_h0_sqr), std::sqrt((double)errors.norm_h1_sqr));
+        rhs_norm_unfiltered, int_norm, dot_int_rhs, aint_norm, energy, maxabs, aint_max, at_diff, at4_diff, a4_diff, t0_norm, rhs_norm, join_norm, join_norm2, int_norm_after_join, aint_norm_after_join, split_err, blk_t1_err, t1_max, blkv_sync_err, blkv_max, blkv_dot, blkv_dot_ref, blkv_norm, blkv_maxabs, blkv_maxabs_ref, (unsigned long long)p0_dofs, p0_dot, p0_norm, p0_norm_async, p0_max, def_init, def_final, true_res, sol_norm, std::sqrt((double)errors.norm_h0_sqr), std::sqrt((double)errors.norm_h1_sqr), sync_route_err, sync_scalar_err);
       std::printf("C13LEVELS desired [%s] chosen [%s]\n", domain.format_desired_levels().c_str(), domain.format_chosen_levels().c_str());
       std::printf("C13INFO %s\n", domain.get_chosen_parti_info().c_str());
       std::fflush(stdout);
